@@ -115,6 +115,25 @@ impl DecLit {
     }
 }
 
+impl DecLit {
+    /// The same number with the trailing zeros of its digit string moved into
+    /// the exponent: `8000000000000020.0` is 800000000000002 x 10^1. The
+    /// quantifier of C01 speaks of the shortest decimal form of a double, and
+    /// that form has no trailing zeros, however the printer pads it.
+    pub fn canonical(&self) -> DecLit {
+        let trimmed = self.digits.trim_end_matches('0');
+        let moved = (self.digits.len() - trimmed.len()) as i64;
+        DecLit {
+            neg: self.neg,
+            digits: trimmed.to_string(),
+            written_exp: self.written_exp,
+            eff_exp: self.eff_exp + moved,
+            has_frac: self.has_frac,
+            has_exp: self.has_exp,
+        }
+    }
+}
+
 /// Is `got` acceptable as the reading of the shortest decimal form of `orig`
 /// (C01 / C13 quantifier)? `printed` is that decimal form.
 pub fn float_roundtrip_ok(orig: f64, got: f64, printed: &str) -> bool {
@@ -126,7 +145,7 @@ pub fn float_roundtrip_ok(orig: f64, got: f64, printed: &str) -> bool {
     }
     match parse_dec_lit(printed) {
         Some(l) => {
-            if l.must_be_exact_any_build() && l.sig_digits() <= 15 {
+            if l.canonical().must_be_exact_any_build() && l.sig_digits() <= 15 {
                 return false;
             }
         }
